@@ -163,6 +163,22 @@ func (c *Ctx) valueLanguage(v ssa.Value, fn *ssa.Function, depth int) (*rx.Lang,
 // flagFieldLanguage: the language of a string flag bound to field fieldIdx of
 // global g, from the validation its command performs before running.
 func (c *Ctx) flagFieldLanguage(g *ssa.Global, fieldIdx int) (*rx.Lang, string, string) {
+	// the field must hold what the user typed: no store to it besides the flag binding
+	for _, fn := range c.P.RepoFns {
+		reassigned := ""
+		allInstrs(fn, func(in ssa.Instruction) {
+			if st, ok := in.(*ssa.Store); ok {
+				if fa, ok := st.Addr.(*ssa.FieldAddr); ok && fa.X == ssa.Value(g) && fa.Field == fieldIdx {
+					if _, isConst := st.Val.(*ssa.Const); !isConst {
+						reassigned = load.FnName(fn)
+					}
+				}
+			}
+		})
+		if reassigned != "" {
+			return nil, "", "REASSIGNED: the flag variable is overwritten in " + reassigned + " before it is used: what is written to the files is not the value given on the command line"
+		}
+	}
 	// is the field validated as a semantic version somewhere in an entry point?
 	validated := false
 	for _, cmd := range c.Commands().Commands {
@@ -268,6 +284,66 @@ func (c *Ctx) RuleRxIncl() *Result {
 			for _, row := range expandTable(recv, call.Call.Args[2]) {
 				c.inclOne(res, fn, call, row[0], row[1])
 			}
+			// every marker pattern is applied to every line: inside the line loop the call may not
+			// depend on a condition (other than the loop's own)
+			for _, l := range naturalLoops(fn) {
+				if !l.body[call.Block()] {
+					continue
+				}
+				// innermost loop containing the call that also contains a Scan() call (the line loop)
+				hasScan := false
+				for b := range l.body {
+					for _, in2 := range b.Instrs {
+						if sc, ok := in2.(*ssa.Call); ok && isMeth(staticCallee(&sc.Call), "bufio", "Scanner", "Scan") {
+							hasScan = true
+						}
+					}
+				}
+				if !hasScan {
+					continue
+				}
+				res.Instances++
+				pname := "pattern"
+				if p, _ := c.Rx().Resolve(recv); p != nil {
+					pname = p.Name
+				}
+				key := load.FnName(fn) + ":every line gets " + pname
+				// the call must lie on every path from the Scan()==true edge to the write of the line:
+				// its block dominates every block of the loop that leaves towards the header (latches)
+				okAll := true
+				// a call inside a table loop nested in the line loop runs for every entry when it
+				// dominates the latches of that loop; the table loop's header then stands for it
+				anchor := call.Block()
+				for changed := true; changed; {
+					changed = false
+					for _, il := range naturalLoops(fn) {
+						if il.header == l.header || !l.body[il.header] || !il.body[anchor] || il.header == anchor {
+							continue
+						}
+						for b := range il.body {
+							for _, sc := range b.Succs {
+								if sc == il.header && b != il.header && !anchor.Dominates(b) {
+									okAll = false
+								}
+							}
+						}
+						anchor, changed = il.header, true
+						break
+					}
+				}
+				for b := range l.body {
+					for _, sc := range b.Succs {
+						if sc == l.header && b != l.header && !anchor.Dominates(b) {
+							okAll = false
+						}
+					}
+				}
+				if okAll {
+					res.ok(key, c.P.InstrPos(call), "applied on every iteration of the line loop")
+				} else {
+					res.bad(key, c.P.InstrPos(call), "the replacement is only applied to some lines (it depends on a condition inside the line loop): markers on the other lines keep the old value")
+				}
+			}
 		})
 	}
 	return res
@@ -276,121 +352,135 @@ func (c *Ctx) RuleRxIncl() *Result {
 // inclOne judges one (pattern, template) pair of a ReplaceAll call.
 func (c *Ctx) inclOne(res *Result, fn *ssa.Function, call *ssa.Call, recv ssa.Value, tmpl ssa.Value) {
 	func() {
-			res.Instances++
-			p, why := c.Rx().Resolve(recv)
-			pos := c.P.InstrPos(call)
-			if p == nil {
-				res.undecided(load.FnName(fn)+":replace with unresolved pattern", pos, why)
-				return
+		res.Instances++
+		p, why := c.Rx().Resolve(recv)
+		pos := c.P.InstrPos(call)
+		if p == nil {
+			res.undecided(load.FnName(fn)+":replace with unresolved pattern", pos, why)
+			return
+		}
+		key := load.FnName(fn) + ":replace " + p.Name
+		// template
+		tv := stripConv(tmpl)
+		tcall, ok := tv.(*ssa.Call)
+		if !ok || !isFn(staticCallee(&tcall.Call), "fmt", "Sprintf") {
+			res.undecided(key, pos, "the replacement template is not a Sprintf of a constant format")
+			return
+		}
+		format, ok := constString(tcall.Call.Args[0])
+		if !ok {
+			res.undecided(key, pos, "the replacement template format is not constant")
+			return
+		}
+		var args []ssa.Value
+		if len(tcall.Call.Args) > 1 {
+			if sl, ok := tcall.Call.Args[1].(*ssa.Slice); ok {
+				args = variadicElems(sl)
 			}
-			key := load.FnName(fn) + ":replace " + p.Name
-			// template
-			tv := stripConv(tmpl)
-			tcall, ok := tv.(*ssa.Call)
-			if !ok || !isFn(staticCallee(&tcall.Call), "fmt", "Sprintf") {
-				res.undecided(key, pos, "the replacement template is not a Sprintf of a constant format")
-				return
+		}
+		toks := parseTemplate(format)
+		// top-level elements of the pattern without anchors
+		elems := flattenConcat(p.Re)
+		var body []*syntax.Regexp
+		for _, e := range elems {
+			switch e.Op {
+			case syntax.OpBeginText, syntax.OpBeginLine, syntax.OpEndText, syntax.OpEndLine, syntax.OpEmptyMatch:
+			default:
+				body = append(body, e)
 			}
-			format, ok := constString(tcall.Call.Args[0])
-			if !ok {
-				res.undecided(key, pos, "the replacement template format is not constant")
-				return
+		}
+		topCap := map[int]int{} // group number -> position in body
+		for i, e := range body {
+			if e.Op == syntax.OpCapture {
+				topCap[e.Cap] = i
 			}
-			var args []ssa.Value
-			if len(tcall.Call.Args) > 1 {
-				if sl, ok := tcall.Call.Args[1].(*ssa.Slice); ok {
-					args = variadicElems(sl)
+		}
+		var problems []string
+		ai := 0
+		cursor := 0 // next body position not yet accounted for
+		for ti, t := range toks {
+			switch t.kind {
+			case "group":
+				bi, ok := topCap[t.n]
+				if !ok {
+					problems = append(problems, fmt.Sprintf("template keeps group %d, which is not a top-level group of %s", t.n, p.Src))
+					continue
 				}
-			}
-			toks := parseTemplate(format)
-			// top-level elements of the pattern without anchors
-			elems := flattenConcat(p.Re)
-			var body []*syntax.Regexp
-			for _, e := range elems {
-				switch e.Op {
-				case syntax.OpBeginText, syntax.OpBeginLine, syntax.OpEndText, syntax.OpEndLine, syntax.OpEmptyMatch:
-				default:
-					body = append(body, e)
+				if bi < cursor {
+					problems = append(problems, "template keeps groups out of pattern order")
+					continue
 				}
-			}
-			topCap := map[int]int{} // group number -> position in body
-			for i, e := range body {
-				if e.Op == syntax.OpCapture {
-					topCap[e.Cap] = i
+				if bi > cursor && (ti == 0 || toks[ti-1].kind != "verb") {
+					problems = append(problems, fmt.Sprintf("text matched before group %d is dropped by the replacement", t.n))
 				}
-			}
-			var problems []string
-			ai := 0
-			cursor := 0 // next body position not yet accounted for
-			for ti, t := range toks {
-				switch t.kind {
-				case "group":
-					bi, ok := topCap[t.n]
-					if !ok {
-						problems = append(problems, fmt.Sprintf("template keeps group %d, which is not a top-level group of %s", t.n, p.Src))
-						continue
+				cursor = bi + 1
+			case "lit":
+				problems = append(problems, fmt.Sprintf("the template inserts the literal %q", t.text))
+			case "verb":
+				if ai >= len(args) {
+					problems = append(problems, "template has more verbs than arguments")
+					continue
+				}
+				val := args[ai]
+				ai++
+				// the segment this verb replaces: body[cursor : next kept group)
+				end := len(body)
+				for _, t2 := range toks[ti+1:] {
+					if t2.kind == "group" {
+						if bi, ok := topCap[t2.n]; ok {
+							end = bi
+						}
+						break
 					}
-					if bi < cursor {
-						problems = append(problems, "template keeps groups out of pattern order")
-						continue
-					}
-					if bi > cursor && (ti == 0 || toks[ti-1].kind != "verb") {
-						problems = append(problems, fmt.Sprintf("text matched before group %d is dropped by the replacement", t.n))
-					}
-					cursor = bi + 1
-				case "lit":
-					problems = append(problems, fmt.Sprintf("the template inserts the literal %q", t.text))
-				case "verb":
-					if ai >= len(args) {
-						problems = append(problems, "template has more verbs than arguments")
-						continue
-					}
-					val := args[ai]
-					ai++
-					// the segment this verb replaces: body[cursor : next kept group)
-					end := len(body)
-					for _, t2 := range toks[ti+1:] {
-						if t2.kind == "group" {
-							if bi, ok := topCap[t2.n]; ok {
-								end = bi
-							}
-							break
+				}
+				if cursor >= end {
+					problems = append(problems, "the inserted value replaces nothing: it is added on every run")
+					continue
+				}
+				seg := &syntax.Regexp{Op: syntax.OpConcat, Sub: body[cursor:end], Flags: p.Re.Flags}
+				if end-cursor == 1 {
+					seg = body[cursor]
+				}
+				cursor = end
+				segLang, err := rx.Full("replaced segment of "+p.Name, seg)
+				if err != nil {
+					res.undecided(key, pos, err.Error())
+					return
+				}
+				vl, what, why := c.valueLanguage(val, fn, 0)
+				if vl == nil && strings.Contains(why, "REASSIGNED: ") {
+					problems = append(problems, why[strings.Index(why, "REASSIGNED: ")+len("REASSIGNED: "):])
+					continue
+				}
+				if vl == nil {
+					res.undecided(key, pos, "cannot determine what is inserted: "+why)
+					return
+				}
+				// the replaced segment must stop at the text that follows it: if it can match across the
+				// literal that begins the rest of the pattern, a greedy match swallows more of the line
+				if end < len(body) {
+					if lit := leadingLiteral(body[end]); lit != "" {
+						delim, _ := rx.SearchPattern("delimiter", regexp.QuoteMeta(lit))
+						if r, err := rx.Intersects(segLang, delim); err == nil && r.Found {
+							problems = append(problems, fmt.Sprintf("the replaced segment %s can itself contain %q, the text that must follow it: being greedy it runs to the last %q on the line and everything in between is replaced too", seg.String(), lit, lit))
 						}
 					}
-					if cursor >= end {
-						problems = append(problems, "the inserted value replaces nothing: it is added on every run")
-						continue
-					}
-					seg := &syntax.Regexp{Op: syntax.OpConcat, Sub: body[cursor:end], Flags: p.Re.Flags}
-					if end-cursor == 1 {
-						seg = body[cursor]
-					}
-					cursor = end
-					segLang, err := rx.Full("replaced segment of "+p.Name, seg)
-					if err != nil {
-						res.undecided(key, pos, err.Error())
-						return
-					}
-					vl, what, why := c.valueLanguage(val, fn, 0)
-					if vl == nil {
-						res.undecided(key, pos, "cannot determine what is inserted: "+why)
-						return
-					}
-					r, err := rx.NotIncluded(vl, segLang)
-					if err != nil {
-						res.undecided(key, pos, err.Error())
-						return
-					}
-					if r.Found {
-						problems = append(problems, fmt.Sprintf("the command inserts %s, e.g. %q, but the segment %s of the read pattern does not match it: the next run no longer recognises (and so no longer updates) this marker", what, r.Witness, seg.String()))
-					}
+				}
+				r, err := rx.NotIncluded(vl, segLang)
+				if err != nil {
+					res.undecided(key, pos, err.Error())
+					return
+				}
+				if r.Found {
+					problems = append(problems, fmt.Sprintf("the command inserts %s, e.g. %q, but the segment %s of the read pattern does not match it: the next run no longer recognises (and so no longer updates) this marker", what, r.Witness, seg.String()))
 				}
 			}
-			if len(problems) > 0 {
-				res.bad(key, pos, strings.Join(problems, "; "))
-			} else {
-				res.ok(key, pos, fmt.Sprintf("template %q: every inserted value's language is included in the language of the pattern segment it replaces", format))
-			}
+		}
+		if len(problems) > 0 {
+			res.bad(key, pos, strings.Join(problems, "; "))
+		} else {
+			res.ok(key, pos, fmt.Sprintf("template %q: every inserted value's language is included in the language of the pattern segment it replaces", format))
+		}
 
 	}()
 }
@@ -500,4 +590,32 @@ func expandTable(recv, tmpl ssa.Value) [][2]ssa.Value {
 		return same
 	}
 	return out
+}
+
+// leadingLiteral returns the literal text a subexpression must start with ("" if none).
+func leadingLiteral(re *syntax.Regexp) string {
+	switch re.Op {
+	case syntax.OpLiteral:
+		return string(re.Rune)
+	case syntax.OpCapture:
+		return leadingLiteral(re.Sub[0])
+	case syntax.OpConcat:
+		if len(re.Sub) > 0 {
+			return leadingLiteral(re.Sub[0])
+		}
+	}
+	return ""
+}
+
+// inInnerLoopOf: a and b are in the same inner loop nested in l (a table loop inside the line loop).
+func inInnerLoopOf(a, b *ssa.BasicBlock, fn *ssa.Function, outer *natLoop) bool {
+	for _, l := range naturalLoops(fn) {
+		if l == outer || l.header == outer.header {
+			continue
+		}
+		if outer.body[l.header] && l.body[a] && l.body[b] {
+			return true
+		}
+	}
+	return false
 }
